@@ -652,6 +652,17 @@ def bodyLines (today : Date) (dp : Str) (fuel : Nat) : Nat → St → Option Ite
       | .bad w => .error (.syntax w)
       | .cont _ => .error (.syntax "unreachable")
 
+/-- Outside the modelled fragment: a word (run of tokens without SPACE / NL) that contains a URL scheme token together with
+`::`.  How ANTLR splits such a word between `url`, `simple_prop` and `inline_prop` (URL as key, `::` inside a URL path, URL as
+inline value) is decided by ALL(*) prediction and is not modelled; the driver answers "unsupported" for such pages. -/
+def hasUrlColonWord (toks : List Tok) : Bool :=
+  let rec go : Bool → Bool → Bool → List Tok → Bool
+    | url, dbl, _, [] => url && dbl
+    | url, dbl, prevColon, t :: rest =>
+      if t.name == "SPACE" || t.name == "NL" then (url && dbl) || go false false false rest
+      else go (url || isHttps t) (dbl || (prevColon && t.name == "COLON")) (t.name == "COLON") rest
+  go false false false toks
+
 /-- `walk_zorg_page` on a token list -/
 def compileToks (today : Date) (dp : Str) (toks : List Tok) : Except Err PageResult := do
   let fuel := toks.length + 2
